@@ -320,7 +320,7 @@ def classify(case, out):
 
 
 def components(ctx):
-    kw = dict(extra=EXTRA, ldflags=LDFLAGS, classify=classify)
+    kw = dict(extra=EXTRA, ldflags=LDFLAGS, classify=classify, monitor_args=["netbufmon"])
     return [
         vlib.Component("nbr", "h_netbuf.c", SRCS, ["netbuf"], gen_reader,
                        nontrivial=lambda c: any(o.startswith(("r_wait", "r_loop")) for o in c) and any(o.startswith("net_deliver") for o in c) and "spin" in c,
@@ -342,14 +342,50 @@ def components(ctx):
     ]
 
 
+def monitor_accepts_model(ctx, comps):
+    """The monitor is the judge at property level; the theorems are about the model.  Tie the two: every answer
+    the *model* gives on this run's cases must be admissible to the monitor (else one of them is wrong)."""
+    for comp in comps:
+        cases = vlib.load_corpus(ctx.pid, comp.name) + comp.gen(ctx.rng.fork(comp.name + ":1"), ctx.tier, 1)
+        mo, mc = vlib.run_stream([vlib.PMODEL] + list(comp.pmodel_args), cases, ctx.tmp, comp.name + "-mm")
+        mcases = []
+        for i, case in enumerate(cases):
+            outl = mo.get(i, [])
+            lines = []
+            for j, op in enumerate(case):
+                if j < len(outl):
+                    lines += [op, "> " + vlib.split_l1(outl[j])[0]]
+            mcases.append(lines)
+        vo, vc = vlib.run_stream([vlib.PMODEL] + list(comp.monitor_args), mcases, ctx.tmp, comp.name + "-mv")
+        for i, case in enumerate(cases):
+            v = vo.get(i, [])
+            badv = [(j, x) for j, x in enumerate(v) if x != "ok"]
+            if i in mc or i in vc or badv or len(v) != len(case):
+                j, x = badv[0] if badv else (len(v), "no verdict / crash")
+                ctx.proof_ok = False
+                ctx.proof_msgs.append("monitor rejects the model's own answer: component %s op %d (%s): %s; ops=%r"
+                                      % (comp.name, j, case[j] if j < len(case) else "?", x, case[:j + 1][-12:]))
+                break
+
+
 def check(ctx):
-    return vlib.standard_check(
-        ctx, MODULES, components(ctx),
-        assumptions=["network_read/network_write/events keep their contracts (C04-C06): a request completes exactly once, "
-                     "a successful read reports 1 <= n <= buflen bytes stored at the buffer start, a successful write reports the whole buffer, "
-                     "a failed write has passed on a prefix of it; callbacks run only while registered",
-                     "the application follows netbuf.h: one wait at a time, consume at most what peek shows and not while a wait is outstanding, "
-                     "reserve is followed by consume (<= the reserved length) before anything else",
-                     "allocation succeeds (allocation failure is C14); sizes stay below SIZE_MAX/2"],
-        trusted=["pmodel (compiled Lean model)", "harness/h_netbuf.c incl. the scripted recv/send/poll",
-                 "tools/extractors/c07.py", "gcc ASan/UBSan as the out-of-bounds detector in the real code"])
+    comps = components(ctx)
+    ctx.assumptions += [
+        "network_read/network_write/events keep their contracts (C04-C06): a request completes exactly once, "
+        "a successful read reports 1 <= n <= buflen bytes stored at the buffer start, a successful write reports the whole buffer, "
+        "a failed write has passed on a prefix of it; callbacks run only while registered",
+        "the application follows netbuf.h: one wait at a time, consume at most what peek shows and not while a wait is outstanding, "
+        "reserve is followed by consume (<= the reserved length) before anything else",
+        "allocation succeeds (allocation failure is C14); sizes stay below SIZE_MAX/2"]
+    ctx.trusted += ["pmodel (compiled Lean model and monitor)", "harness/h_netbuf.c incl. the scripted recv/send/poll",
+                    "tools/extractors/c07.py", "gcc ASan/UBSan as the out-of-bounds detector in the real code"]
+    vlib.proof_audit(ctx, MODULES)
+    if ctx.proof_ok:
+        monitor_accepts_model(ctx, comps)
+    for comp in comps:
+        ctx.rules.append("%s: %s" % (comp.name, comp.rule))
+        fails = vlib.check_component(ctx, comp)
+        if not ctx.proof_ok and not [f for f in fails if f["kind"] == "L1"]:
+            fails += vlib.check_component(ctx, comp, budget_mult=10)
+        vlib.process_failures(ctx, comp, fails)
+    return vlib.finish(ctx, "proof", MODULES)
